@@ -13,7 +13,7 @@ from . import storefamily as F
 from . import storemodel
 
 PROP = "C08"
-CLAUSES = {"IdAboveRecorded", "DirFresh", "DirEmptyAtStart", "IdUnique", "RecordedImmutable", "GcKeepsRecorded",
+CLAUSES = {"IdAboveRecorded", "DirFresh", "DirEmptyAtStart", "IdUnique", "RecordedImmutable", "NoWriteAfterRecord", "GcKeepsRecorded",
            "ArchiveReadOnly"}
 
 
@@ -56,6 +56,11 @@ def scenario(rng, k):
                             p_fail=0.45, jobs=rng.choice([None, None, 2]))
             if rng.random() < 0.25:
                 st["crash_at"] = rng.randrange(8, 70)
+            elif "-j" not in st["argv"] and rng.random() < 0.4:
+                # sequential (teed) run whose tasks leave a helper behind that prints after the shell has exited: the index
+                # is watched while the command runs - nothing may change in a version directory once its row is there
+                st["late"] = [nm for _p, nm in G.EXPS if rng.random() < 0.6]
+                st["watch"] = True
             steps.append(st)
         elif r < 0.75 and have_arch:
             steps.append({"cmd": "restore", "argv": ["restore", "../A.tar.gz"], "archive": "../A.tar.gz", "clock": clock})
